@@ -23,6 +23,7 @@ func init() {
 			{ID: "C20.R2", Min: 4, Desc: "key discipline", Fn: c20Keys},
 			{ID: "C20.R3", Min: 2, Desc: "rejection schedules nothing", Fn: c20Reject},
 			{ID: "C20.R4", Min: 3, Desc: "delivery path carries the original message through the mailbox", Fn: c20Delivery},
+			{ID: "C20.R6", Min: 1, Desc: "due jobs are dispatched without waiting for running ones (no blocking execution, no worker limit)", Fn: c20Dispatch},
 			{ID: "C20.R5", Min: 2, Desc: "scheduler errors are not dropped", Fn: c20Errors},
 		},
 	})
@@ -754,4 +755,41 @@ func (g *IG) okEdgesLookup(lk *ssa.Lookup) (found, missing map[edge]bool) {
 		}
 	}
 	return
+}
+
+
+// c20Dispatch: one scheduler (one timer loop) serves every actor of the system, and the job function is a Tell, which can block on
+// an unreachable remote peer (C14.R1, known finding). If the loop runs job functions inline (blocking execution) or feeds a
+// bounded worker pool, one actor's delivery to a dead peer stalls the loop; jobs of other actors that fall due meanwhile are
+// late, and the engine drops a Once that is late beyond its outdated threshold — delivered zero times. Every construction of
+// the engine in the module passes neither option.
+func c20Dispatch(p *Program, r *Report) {
+	n := 0
+	for _, fn := range p.Mod {
+		for _, b := range fn.Blocks {
+			for _, in := range b.Instrs {
+				c := callOf(in)
+				if c == nil || !strings.HasSuffix(calleeQual(c), "quartz.NewStdScheduler") {
+					continue
+				}
+				n++
+				bad := ""
+				// the variadic options: elements stored into the argument's backing array
+				for _, b2 := range fn.Blocks {
+					for _, in2 := range b2.Instrs {
+						if oc := callOf(in2); oc != nil {
+							q := calleeQual(oc)
+							if strings.HasSuffix(q, "quartz.WithBlockingExecution") || strings.HasSuffix(q, "quartz.WithWorkerLimit") {
+								bad = q
+							}
+						}
+					}
+				}
+				r.Check(bad == "", "scheduler engine constructed in "+fnName(fn), in.Pos(), "the engine is built without blocking execution and without a worker limit: a job function that blocks (a Tell to an unreachable peer) delays no other actor's job "+bad)
+			}
+		}
+	}
+	if n == 0 {
+		r.Unresolved("no construction of the quartz scheduler in the module")
+	}
 }
